@@ -581,9 +581,9 @@ func c19KeysInAction(m *vk.Monitor, k *vk.KS, r interface{ IntN(int) int }) {
 	name2id, _ := verifOutboundTable()
 	// one rule program: everything to g1, domain rule to g2, lpm rule to g3
 	p := &vk.RProg{Rules: []vk.RRule{
-		{Conds: []vk.RCond{{Func: "domain", Params: []vk.RParam{{Key: "full", Val: "key.example"}}}}, Out: vk.ROut{Name: "g2"}},
-		{Conds: []vk.RCond{{Func: "dip", Params: []vk.RParam{{Val: "203.0.113.0/24"}, {Val: "2001:db8:77::/48"}}}}, Out: vk.ROut{Name: "g3"}},
-	}, Fallback: vk.ROut{Name: "g1"}}
+		{Conds: []vk.RCond{{Func: "domain", Params: []vk.RParam{{Key: "full", Val: "key.example"}}}}, Out: vk.ROut{Name: verifGroups[2]}},
+		{Conds: []vk.RCond{{Func: "dip", Params: []vk.RParam{{Val: "203.0.113.0/24"}, {Val: "2001:db8:77::/48"}}}}, Out: vk.ROut{Name: verifGroups[3]}},
+	}, Fallback: vk.ROut{Name: verifGroups[1]}}
 	rules, fb, err := verifParseRouting(p.Text())
 	if err != nil {
 		m.Inconclusive("keys: %v", err)
@@ -630,7 +630,7 @@ func c19KeysInAction(m *vk.Monitor, k *vk.KS, r interface{ IntN(int) int }) {
 			f.Proto = 17
 		}
 		data := f.Bytes()
-		k.QMapUpdate("outbound_connectivity_map", verifU32(outboundConnectivityMapKey(name2id["g1"], c03NetworkType(f.Proto == 17, v6))), verifU32(1), 0)
+		k.QMapUpdate("outbound_connectivity_map", verifU32(outboundConnectivityMapKey(name2id[verifGroups[1]], c03NetworkType(f.Proto == 17, v6))), verifU32(1), 0)
 		k.QPkt(&vk.PktReq{Hook: vk.HookLanIngressL2, Protocol: f.SkbProtocol(), Ifindex: 2, PullMode: vk.PullForceOK, HeadLen: uint32(len(data)), Data: data})
 		res := k.Sync()
 		if k.Dead() != nil {
